@@ -309,4 +309,13 @@ def rcb_memoize(ctx, prog):
 
 rcb_memoize.rule_id = "C04.RCB-memoize"
 
-RULES = [weak_core, weak_map, rcb, cfgd, guard_bypass, rcb_user, data_swap, dom_end, sib_queue_len, rcb_memoize]
+def data_remove_parent(ctx, prog):
+    """A wrong index written by remove_parent's swap-remove makes a later unlink index out of bounds (panic in debug
+    and release). Same rule as C11.DATA-remove-parent."""
+    from .c11 import data_remove_parent as f
+    f(ctx, prog, "C04.DATA-remove-parent")
+
+
+data_remove_parent.rule_id = "C04.DATA-remove-parent"
+
+RULES = [weak_core, weak_map, rcb, cfgd, guard_bypass, rcb_user, data_swap, dom_end, sib_queue_len, rcb_memoize, data_remove_parent]
